@@ -115,13 +115,13 @@ Definition densify_gen (fx : fixes) (sq : Q -> option Q) (coords : list pt) (r :
 Definition densify := densify_gen repaired exact_sqrt.
 
 (* ------------------------------------------------------------------ geometries *)
-Inductive mkind := MPoint | MLine | MPolygon | MCollection.
+Inductive mkind := MLine | MPolygon | MCollection.
 
-(** shapely geometry kinds over coordinate lists; [Multi k] is MultiPoint /
-    MultiLineString / MultiPolygon / GeometryCollection (the code treats the
-    last three uniformly) *)
+(** shapely geometry kinds over coordinate lists; [Multi k] is MultiLineString /
+    MultiPolygon / GeometryCollection (the code treats the three uniformly) *)
 Inductive geom :=
 | Point (p : pt)
+| MultiPoint (ps : list pt)
 | Line (cs : list pt)
 | Ring (cs : list pt)
 | Polygon (ext : list pt) (holes : list (list pt))
@@ -138,7 +138,7 @@ Definition mapM {A B} (f : A -> res B) : list A -> res (list B) :=
 Fixpoint segmented_gen (fx : fixes) (sq : Q -> option Q) (r : Q) (g : geom) {struct g} : res geom :=
   match g with
   | Point p => Ok (Point p)
-  | Multi MPoint parts => Ok (Multi MPoint parts)
+  | MultiPoint ps => Ok (MultiPoint ps)
   | Multi k parts => ps <- mapM (segmented_gen fx sq r) parts ;; Ok (Multi k ps)
   | Line cs => c <- densify_gen fx sq cs r ;; Ok (Line c)
   | Ring cs => c <- densify_gen fx sq cs r ;; Ok (Ring c)
@@ -155,6 +155,7 @@ Definition segmented := segmented_gen repaired exact_sqrt.
 Fixpoint gmap (f : pt -> pt) (g : geom) : geom :=
   match g with
   | Point p => Point (f p)
+  | MultiPoint ps => MultiPoint (map f ps)
   | Line cs => Line (map f cs)
   | Ring cs => Ring (map f cs)
   | Polygon e hs => Polygon (map f e) (map (map f) hs)
@@ -203,6 +204,7 @@ Fixpoint path_length (sq : Q -> option Q) (l : list pt) : option Q :=
 Fixpoint paths (g : geom) : list (list pt) :=
   match g with
   | Point p => [[p]]
+  | MultiPoint ps => map (fun p => [p]) ps
   | Line cs => [cs]
   | Ring cs => [cs]
   | Polygon e hs => e :: hs
@@ -219,6 +221,7 @@ Definition geom_length (sq : Q -> option Q) (g : geom) : option Q :=
 Fixpoint vertices (g : geom) : list pt :=
   match g with
   | Point p => [p]
+  | MultiPoint ps => ps
   | Line cs => cs
   | Ring cs => cs
   | Polygon e hs => e ++ concat hs
@@ -228,12 +231,13 @@ Fixpoint vertices (g : geom) : list pt :=
 (** the geometry with every coordinate list replaced by its length: constructor,
     part / ring structure and vertex counts *)
 Inductive skel :=
-| SPoint | SLine (n : nat) | SRing (n : nat) | SPolygon (n : nat) (hs : list nat)
+| SPoint | SMultiPoint (n : nat) | SLine (n : nat) | SRing (n : nat) | SPolygon (n : nat) (hs : list nat)
 | SMulti (k : mkind) (ps : list skel).
 
 Fixpoint skeleton (g : geom) : skel :=
   match g with
   | Point _ => SPoint
+  | MultiPoint ps => SMultiPoint (length ps)
   | Line cs => SLine (length cs)
   | Ring cs => SRing (length cs)
   | Polygon e hs => SPolygon (length e) (map (@length pt) hs)
@@ -244,6 +248,7 @@ Fixpoint skeleton (g : geom) : skel :=
 Fixpoint kind_skeleton (g : geom) : skel :=
   match g with
   | Point _ => SPoint
+  | MultiPoint ps => SMultiPoint (length ps)
   | Line _ => SLine 0
   | Ring _ => SRing 0
   | Polygon _ hs => SPolygon 0 (map (fun _ => O) hs)
